@@ -42,7 +42,19 @@ def main():
                                     reason='coqchk does not accept the compiled development: ' + chk['tail']), False))
 
     # ---- 2. tie (+ corpus first), 3. known findings
-    tie = mod.run(args.tier)
+    try:
+        tie = mod.run(args.tier)
+    except common.HarnessError:
+        raise
+    except Exception as e:       # noqa: the implementation behaved in a way the tie's driver cannot even process
+        import traceback
+        tb = traceback.format_exc()
+        tie = dict(coverage=dict(programs=0, evaluations=0, tie_aborted=True),
+                   failures=[dict(kind='history', no_input=True,
+                                  theorem_or_case=f'correspondence harness/props/{prop.lower()}.py: the driver raised {type(e).__name__} while exercising the implementation',
+                                  summary=f'the correspondence run could not be completed against the current code ({type(e).__name__}: {e}); the property is no longer shown to hold',
+                                  traceback=tb[-3000:], config={})],
+                   assumptions=[])
     tie.pop('cases', None)          # dict(coverage=..., failures=[payload...], known=[(id, text)], assumptions=[...])
     kf = common.known_findings(prop)
     open_ids = {k['id']: k for k in kf if k['kind'] == 'finding'}
